@@ -188,7 +188,7 @@ def random_envs(env, seed, n=2):
 
 def judge_group(args):
     """all option sets of one program -> (records, info)"""
-    group, seed = args
+    group, seed, bases = args
     group = sorted(group, key=lambda it: (not (it["opt"]["unroll"] and it["opt"]["inline"] and not it["opt"]["expand"]),
                                          sorted(it["opt"].items())))
     base = group[0]
@@ -214,7 +214,7 @@ def judge_group(args):
                 ok = False
         info["spec"] = "agrees" if ok else "differs"
     recs = []
-    for bi, base_opts in enumerate(BASES):
+    for bi, base_opts in enumerate(bases):
         # the default representation set on top of this base option set is the reference of its 8 runs
         bref = ref if bi == 0 else observe(prog, dict(base_opts, **options_of(base["opt"])), envs)
         btag = [] if bi == 0 else ["base:" + ",".join("%s=%s" % kv for kv in sorted(base_opts.items()))]
@@ -271,9 +271,14 @@ def run(ctx):
                 raise MachineryError("program enumerated under %d option sets instead of 8" % len(g))
         cov = {}
         stat = {"default-exc": 0, "spec-agrees": 0, "spec-differs": 0, "spec-n/a": 0}
-        res = pmap(judge_group, [(g, ctx.seed + i) for i, g in enumerate(glist)])
+        # quick: the second base option set for every second program and for all programs with attributes, delays or
+        # tiny coefficients; thorough: for every program
+        def bases_for(i, g):
+            special = {"with-attributes", "delay", "tiny-coefficients"} & set(g[0]["tags"])
+            return BASES if (ctx.tier == "thorough" or special or i % 2 == 0) else BASES[:1]
+        res = pmap(judge_group, [(g, ctx.seed + i, bases_for(i, g)) for i, g in enumerate(glist)])
         for g, (recs, info) in zip(glist, res):
-            ctx.programs += 8 * len(BASES)
+            ctx.programs += 8 * len(bases_for(glist.index(g), g))
             ctx.traces += 1
             stat["spec-" + info["spec"]] += 1
             if info["default"] == "exc":
@@ -281,7 +286,7 @@ def run(ctx):
             for t in g[0]["tags"]:
                 cov[t] = cov.get(t, 0) + 1
             for r in recs:
-                ctx.violation(r, {"group": g, "seed": ctx.seed + glist.index(g)})
+                ctx.violation(r, {"group": g, "seed": ctx.seed + glist.index(g), "bases": [dict(b) for b in bases_for(glist.index(g), g)]})
         for t in ("k:for", "op:f", "delay", "with-attributes", "tiny-coefficients", "fn:k:forst", "fn:k:ifst", "call-in-loop", "initial"):
             if not cov.get(t):
                 raise MachineryError("vacuous: no program with shape tag %s" % t)
@@ -313,5 +318,5 @@ def run(ctx):
 
 def replay(ctx, sc):
     ir_eval.pymoca()
-    recs, _ = judge_group((sc["group"], sc["seed"]))
+    recs, _ = judge_group((sc["group"], sc["seed"], tuple(sc.get("bases") or BASES)))
     return recs
